@@ -216,9 +216,9 @@ TIES = {
     "C11": TIE_SEEK + ["pos_lines_tie", "estimate_lines_tie", "data_len_tie"],
     "C19": TIE_SEEK + ["pos_lines_tie", "estimate_lines_tie"] + [t for t in TIE_LINEPOS if t not in TIE_SEEK] + TIE_CATCHUP,
     "C09": TIE_LINEPOS + TIE_CATCHUP, "C08": TIE_LINEPOS + TIE_CATCHUP,
-    "C12": TIE_LEN + ["range_tie", "first_meta_timestamp_tie"],
+    "C12": TIE_LEN + ["range_tie", "first_meta_timestamp_tie", "time_range_update_tie"],
     "C04": TIE_LEN + TIE_META, "C05": TIE_LEN, "C06": TIE_LEN + TIE_META,
-    "C07": TIE_LAYOUT + TIE_META, "C15": TIE_LAYOUT + TIE_META, "C03": ["MAX_SMALL_TS_tie"],
+    "C07": TIE_LAYOUT + TIE_META, "C15": TIE_LAYOUT + TIE_META, "C03": ["MAX_SMALL_TS_tie", "time_range_update_tie"],
 }
 
 # property-level statements about the TRANSLATED functions (BS/Props/GenCore.lean)
